@@ -3,10 +3,11 @@
 # confirms the demonstration (fails with the change, passes without) and runs the property's check against the changed tree.
 WT=$1; OUT=$2; PROP=$3; shift 3
 cd "$WT" || exit 9
+git -C "$WT" checkout -q -- . && git -C "$WT" apply "$OUT/patch.diff" || { echo "patch does not apply"; exit 8; }
 echo "--- demo with change:"; (cd "$WT" && timeout 300 /venv/bin/python "$OUT/demo.py" 2>&1 | tail -4); echo "exit=${PIPESTATUS[0]}"
-git -C "$WT" stash -q
+git -C "$WT" apply -R "$OUT/patch.diff"
 echo "--- demo without change:"; (cd "$WT" && timeout 300 /venv/bin/python "$OUT/demo.py" 2>&1 | tail -2); echo "exit=${PIPESTATUS[0]}"
-git -C "$WT" stash pop -q
+git -C "$WT" apply "$OUT/patch.diff"
 echo "--- check $PROP against the changed tree:"
 cd /verif && VERIF_REPO="$WT" ./check "$PROP" --no-evidence "$@" 2>&1 | grep -v "^  \.\.\.\|dgstrf" | grep "VIOLATION\|violation:\|detail\|summary\|HARNESS\|KNOWN" | cut -c1-400 | head -14
 echo "check exit=${PIPESTATUS[0]}"
